@@ -175,7 +175,8 @@ class IdsLeg(object):
                 recs.append({"cols": [draw(st.sampled_from(["chr1", "chr2", "c"])), draw(st.sampled_from(["s1", "s2"])), ft,
                                       str(start), str(start + draw(st.integers(0, 50))), ".", draw(st.sampled_from(["+", "-"])), "."],
                              "attrs": attrs, "extras": []})
-            return {"gtf": gtf, "records": recs, "spec": draw(st.sampled_from(SPECS)), "split": draw(st.sampled_from([0, 0, 1, n // 2])),
+            return {"gtf": gtf, "records": recs, "spec": draw(st.sampled_from(SPECS)), "split": draw(st.sampled_from([0, 0, 1, 2, n // 2])), "split2": draw(st.sampled_from([0, n // 2 + 1, n - 1])),
+                    "replace_tail": draw(st.booleans()),
                     "file_db": draw(st.booleans()),
                     "probe": draw(st.sampled_from(["x", "", "%", "_", "UP", "low", "pre", "sp"]))}
 
@@ -230,19 +231,42 @@ class IdsLeg(object):
             ids = [f.id for f in db.all_features()]
             return Failure("an id attribute with several values was accepted; stored ids %r" % ids, sig={"kind": "multi-accepted"})
         k = case.get("split") or 0
+        replace_tail = bool(case.get("replace_tail")) and dup and 0 < k < len(recs)
         if 0 < k < len(recs):
-            # the tail arrives through update() with the same id_spec: numbering continues, look-ups follow
+            # the tail arrives through one or two update() calls on the same handle with the same id_spec:
+            # numbering continues, look-ups follow
+            k2 = case.get("split2") or 0
+            cuts = [k] + ([k2] if k < k2 < len(recs) else []) + [len(recs)]
             p1 = ctx.write("i1.txt", "\n".join(lines[:k]) + "\n")
-            p2 = ctx.write("i2.txt", "\n".join(lines[k:]) + "\n")
             dbfn = ctx.path("ids.db") if case.get("file_db") else ":memory:"
-            db = gffutils.create_db(p1, dbfn, **kw)
+            ckw = dict(kw)
+            if replace_tail and len(set(keys[:k])) < k:
+                replace_tail = False  # duplicates inside the first part: keep create_unique throughout
+            if replace_tail:
+                ckw["merge_strategy"] = "error"
+            db = gffutils.create_db(p1, dbfn, **ckw)
             for f in list(db.all_features()):
                 db[f.id]  # looked at before the update
             ukw = dict((a, b) for a, b in kw.items() if a != "keep_order" and not (a == "id_spec" and b is None))
-            db.update(p2, make_backup=False, **ukw)
+            if replace_tail:
+                ukw["merge_strategy"] = "replace"
+            for a, b in zip(cuts, cuts[1:]):
+                db.update(ctx.write("i2.txt", "\n".join(lines[a:b]) + "\n"), make_backup=False, **ukw)
+                for f in list(db.all_features()):
+                    db[f.id]
         else:
             db = gffutils.create_db(path, ":memory:", **kw)
-        want = resolve_unique(keys) if dup else keys
+        if replace_tail:
+            # 'replace': one feature per key (first-seen position), holding the last line that claimed the key
+            want = []
+            last = {}
+            for kk, line in zip(keys, lines):
+                if kk not in last:
+                    want.append(kk)
+                last[kk] = line
+            lines = [last[kk] for kk in want]
+        else:
+            want = resolve_unique(keys) if dup else keys
         feats = list(db.all_features())
         got = [f.id for f in feats]
         if got != want:
